@@ -35,6 +35,26 @@ func checkC17(c *Ctx) {
 
 	prefixes := []string{"OrchestratorValidatorAddressKey", "ValidatorExternalAddressKey", "ExternalOrchestratorAddressKey"}
 
+	// the three indexes are scanned by hand (raw keys are split at fixed positions: prefix byte, then the chain
+	// id as written): every key of them is prefix|chain|… with nothing in between
+	for _, f := range sortedFuncs(live) {
+		for _, op := range p.StoreOps(f) {
+			pn := c.prefixName(op)
+			if pn != prefixes[0] && pn != prefixes[1] && pn != prefixes[2] {
+				continue
+			}
+			kinds := op.Key.Kinds()
+			if len(kinds) < 2 {
+				continue // a whole-index scan
+			}
+			if kinds[1] == "param" || kinds[1] == "bytes" {
+				continue // handed in by the caller: decided where it is built
+			}
+			r.Check(kinds[1] == "chain", "C17.key-shape", "layout:"+pn+":"+fname(f), c.pos(op.Site), pn+" key is prefix|chain|…",
+				"a "+pn+" key is laid out as "+strings.Join(kinds, "|")+" instead of prefix|chain|…: the in-use scans split raw keys at the prefix and the chain id as written, find nothing under another layout and let a second validator take a key or an orchestrator that is already bound")
+		}
+	}
+
 	// ---- C17.writers ---------------------------------------------------------------
 	var handler *ssa.Function
 	writerSet := map[*ssa.Function]bool{}
